@@ -64,6 +64,10 @@ def cases(tier):
         yield {"gs": list(gs), "labels": "int", "T": 3 if (gs[1] == 2 or tier == "thorough") else 2, "backends": ["sqlite"], "finite_only": True}
     for name, pos, g in ms.special_graphs():
         yield {"gs": ms.explicit(g), "pos": pos, "labels": "int", "T": 3, "backends": ["inmem"], "name": name}
+    # the same oracle with the package logger at DEBUG (stopped candidates are then kept in the lattice; they must stay
+    # inadmissible): node-and-edge states, where the end-point rule produces such candidates
+    for gs in ms.graph_slice("n3"):
+        yield {"gs": list(gs), "labels": "int", "T": 2 if tier == "quick" else 3, "backends": ["inmem"], "noise": [0], "debug": True}
     lvl = "n4e3" if tier == "quick" else "n4e6"
     for gs in ms.graph_slice(lvl):
         if gs[1] == 4:
@@ -146,6 +150,9 @@ def run_case(case):
             # SQLite runs decide the finite-radius, edge-state configurations without the D2 caveat
             cfgs = [c for c in cfgs if c.get("max_dist") and c["obs_noise"] == 1.0 and c["fam"] != "SN"]
     egraph = ms.explicit(graph)
+    if case.get("debug"):
+        cfgs = [c for c in cfgs if c["fam"] == "SN"]
+        ms.set_debug(True)
     for backend in case["backends"]:
         mp = maps.inmem(graph) if backend == "inmem" else maps.sqlite(graph)
         try:
@@ -165,6 +172,8 @@ def run_case(case):
                         res["nt"] += 1
                     msgs = judge(m, r, ref, model, trace)
                     mini = {"gs": egraph, "pos": pos, "labels": case.get("labels", "int"), "trace": trace, "cfg": cfg, "backends": [backend]}
+                    if case.get("debug"):
+                        mini["debug"] = True
                     if msgs and backend == "inmem" and model.only_edges and model.max_dist_init != float("inf"):
                         # D2 predicate: in-memory start candidates = edges whose START NODE is inside the box of
                         # half-width max_dist_init around the first observation
@@ -189,7 +198,9 @@ def run_case(case):
                     if ref["last"] >= 0 and not isinstance(r, Exception):
                         w = ref["walks"][0]
                         try:
+                            ms.set_debug(False)
                             ip = impl_score_walk(ms.make_matcher(mp, cfg), graph, w, trace)
+                            ms.set_debug(bool(case.get("debug")))
                         except Exception as exc:  # noqa
                             ip = exc
                         res["tv"] += 1
@@ -200,6 +211,7 @@ def run_case(case):
                     outs.add((ref["last"], None if ref["best"] is None else round(ref["best"], 6)))
         finally:
             maps.close(mp)
+            ms.set_debug(False)
     res["out"] = sorted(outs, key=repr)
     return res
 
